@@ -461,36 +461,3 @@ def check(report: Report, repo: Repo) -> None:
             report.add("R3-unit_scale", f"{cons}::non-recurse", len(allow) == 1 and allow[0]["args"][0] is key, "user-replaced functions are kept as leaf calls (allow_in_graph on each key of `replace`)", len(allow), 1)
     except Unsupported as ex:
         report.add("R3-unit_scale", cons, None, f"outside fragment: {ex}")
-    # re-initialisers
-    it4 = Interp(repo)
-    for helper, attr in (("_unit_init_weights", "weight"), ("_zero_init_biases", "bias")):
-        for cls_name in ("torch.nn.Linear", "torch.nn.Embedding", "torch.nn.LayerNorm"):
-            w, b_ = P("w", None), P("b", None)
-            sub = Obj(cls_name, attrs={"weight": w, "bias": b_}, term=T("param", ("sub",)), open_attrs=False)
-            m = Obj("torch.nn.Module", term=T("param", ("m",)))
-            from ..absint import _Builtin
-
-            m.attrs["named_modules"] = _Builtin("named_modules", lambda it_, a, k, nd, sub=sub: [("sub", sub)])
-            cons = f"{US}::{helper}[{cls_name.rsplit('.', 1)[1]}]"
-            try:
-                it4.events = []
-                it4.call_function(it4.get_global(US, helper), [m], {})
-            except Unsupported as ex:
-                report.add("R3-reinit", cons, None, f"outside fragment: {ex}")
-                continue
-            ip = [e for e in it4.events if e.kind == "inplace"]
-            covered = cls_name != "torch.nn.LayerNorm"
-            if not covered:
-                report.add("R3-reinit", cons, not ip, "modules other than Linear/Embedding are not re-initialised", [e["op"] for e in ip], [], nontrivial=False)
-                continue
-            tgt = w if attr == "weight" else b_
-            ok = len(ip) == 1 and TM.term_of(ip[0]["target"]) == tgt.term
-            val = TM.term_of(sub.attrs.get(attr))
-            if attr == "weight":
-                exp = T("div", (w.term, T("method", ("std", w.term, (), ()))))
-                ok = ok and val == exp and ip[0]["op"] == "idiv"
-            else:
-                ok = ok and (val == T("sub", (b_.term, b_.term)) or (isinstance(val, T) and val.op == "method" and val.args[0] in ("zero_",)))
-                exp = "b - b (zero)"
-            ng = any(fmt(e["ctx"]).find("no_grad") >= 0 for e in it4.events if e.kind == "with")
-            report.add("R3-reinit", cons, ok and ng, f"{attr} of {cls_name} is re-initialised in place under no_grad (" + ("divided by its std" if attr == "weight" else "zeroed") + ")", fmt(val), fmt(exp))
